@@ -932,6 +932,10 @@ func TestC13(t *testing.T) {
 	probeWeightDefects(t, announce())
 	stat.Check(t, st, "machine", stat.N(4000, 20000), drawMachine, runMachine)
 	stat.Check(t, st, "weightlist", stat.N(4000, 20000), drawWeightList, runWeightList)
+	stat.Check(t, st, "rotation-concurrent", stat.N(40, 600), drawRotation, func(c RotCase) *stat.Failure {
+		st.CaseJSON(c, c.Goroutines >= 4, fmt.Sprintf("concurrent-rotation-weighted-%v", c.Weighted))
+		return runRotation(c)
+	})
 }
 
 // ------------------------------------------------------------------------ concurrent variant
@@ -1405,3 +1409,96 @@ func quietProbeWeightDefects() {
 	}
 }
 
+// ------------------------------------------------------------------------ concurrent rotation
+//
+// "Strict rotation" / "a full cycle contains endpoint i exactly k_i times" with concurrent
+// selectors: every selection takes the next slot of the cycle atomically, so when G
+// goroutines together perform a whole number of cycles on an unchanged set, every endpoint
+// has been returned exactly its share - whatever the interleaving.
+
+type RotCase struct {
+	Weights    []int32 `json:"weights"` // static weights (used when Weighted), one per host
+	Weighted   bool    `json:"weighted"`
+	Goroutines int     `json:"goroutines"`
+	Cycles     int     `json:"cycles"` // total selections = Cycles * cycle length * Goroutines
+}
+
+func drawRotation(rt *rapid.T) RotCase {
+	c := RotCase{Weighted: rapid.Bool().Draw(rt, "weighted"), Goroutines: rapid.SampledFrom([]int{2, 4, 8, 16}).Draw(rt, "goroutines")}
+	n := rapid.IntRange(2, 7).Draw(rt, "hosts")
+	for i := 0; i < n; i++ {
+		c.Weights = append(c.Weights, rapid.SampledFrom([]int32{1, 2, 3, 5, 10, 30, 100}).Draw(rt, "w"))
+	}
+	c.Cycles = rapid.SampledFrom([]int{50, 400, 2000}).Draw(rt, "cycles")
+	return c
+}
+
+func runRotation(c RotCase) *stat.Failure {
+	sel := roundrobin.New(c.Weighted)
+	var eps []endpoint.Endpoint
+	for i, w := range c.Weights {
+		e := EP{Host: hostName(i), Port: int32(10000 + i), W: w, WT: int32(endpoint.ELoop)}
+		if c.Weighted {
+			e.WT = int32(endpoint.EStaticWeight)
+		}
+		eps = append(eps, e.endpoint())
+	}
+	sel.Refresh(eps)
+	want := make([]int, len(c.Weights))
+	cycle := len(c.Weights)
+	if c.Weighted {
+		want, cycle = expectedCounts(c.Weights)
+	} else {
+		for i := range want {
+			want[i] = 1
+		}
+	}
+	per := c.Cycles * cycle // selections per goroutine: a whole number of cycles
+	if per > 60000 {
+		per = (60000 / cycle) * cycle
+	}
+	counts := make([][]int, c.Goroutines)
+	errs := make([]error, c.Goroutines)
+	var wg sync.WaitGroup
+	start := make(chan struct{})
+	for g := 0; g < c.Goroutines; g++ {
+		counts[g] = make([]int, len(c.Weights))
+		wg.Add(1)
+		go func(g int) {
+			defer wg.Done()
+			<-start
+			for k := 0; k < per; k++ {
+				ep, err := sel.Select(msgFor("rr", 0))
+				if err != nil {
+					errs[g] = err
+					return
+				}
+				for i := range c.Weights {
+					if ep.Host == hostName(i) {
+						counts[g][i]++
+					}
+				}
+			}
+		}(g)
+	}
+	close(start)
+	wg.Wait()
+	for _, err := range errs {
+		if err != nil {
+			return stat.Failf("spurious-error", "round robin over %d endpoints returned an error under concurrent selection: %v", len(c.Weights), err)
+		}
+	}
+	total := make([]int, len(c.Weights))
+	for g := range counts {
+		for i, k := range counts[g] {
+			total[i] += k
+		}
+	}
+	cycles := per / cycle * c.Goroutines
+	for i := range total {
+		if total[i] != want[i]*cycles {
+			return stat.Failf("concurrent-rotation", "round robin (weighted=%v, weights %v): %d goroutines performed %d selections = %d whole cycles on an unchanged set; endpoint %d was returned %d times, exactly %d expected (all counts %v, per-cycle shares %v)", c.Weighted, c.Weights, c.Goroutines, per*c.Goroutines, cycles, i, total[i], want[i]*cycles, total, want)
+		}
+	}
+	return nil
+}
